@@ -562,3 +562,9 @@ def probe_known(ctx, finding):
 from props import history as _history  # noqa: E402
 
 correspondence, search, replay = _history.attach(PID, correspondence, search, replay, pasts=['listing-failed-half-way', 'renamed-the-ancestor-of-a-directory-it-had-entered'])
+
+
+# somebody else's classes: the documented extension points used the way a third party uses them (props/thirdparty.py)
+from props import thirdparty as _thirdparty  # noqa: E402
+
+correspondence, search, replay = _thirdparty.attach(PID, correspondence, search, replay)
